@@ -246,9 +246,36 @@ func canon(j *TxJ) string {
 
 // ---- Coq printers -------------------------------------------------------------------
 
-func cBytes(hexs string) string { return vh.Bytes(unhex(hexs)) }
-func cN(hexs string) string     { return vh.BytesAsN(unhex(hexs)) }
-func cDec(s string) string      { return vh.N(bigOf(s)) }
+// Data in case terms is packed into primitive 63-bit integers (see coq/Run/C06.v):
+// B len [words] is a byte string (seven bytes per word, big-endian), V len [words]
+// the big-endian number of those bytes, n w a small number.
+func pWords(b []byte) string {
+	var sb strings.Builder
+	sb.WriteString("[")
+	for i := 0; i < len(b); i += 7 {
+		if i > 0 {
+			sb.WriteString(";")
+		}
+		var w uint64
+		for k := i; k < i+7 && k < len(b); k++ {
+			w = w<<8 | uint64(b[k])
+		}
+		fmt.Fprintf(&sb, "%d", w)
+	}
+	sb.WriteString("]")
+	return sb.String()
+}
+func pB(b []byte) string { return fmt.Sprintf("(B %d %s)", len(b), pWords(b)) }
+func pV(b []byte) string { return fmt.Sprintf("(V %d %s)", len(b), pWords(b)) }
+func pn(v uint64) string {
+	if v < 1<<62 {
+		return fmt.Sprintf("(n %d)", v)
+	}
+	return pV(binary.BigEndian.AppendUint64(nil, v))
+}
+func cBytes(hexs string) string { return pB(unhex(hexs)) }
+func cN(hexs string) string     { return pV(unhex(hexs)) }
+func cDec(s string) string      { return pV(bigOf(s).Bytes()) }
 func cOpt(t, v string) string {
 	if v == "" {
 		return vh.None(t)
@@ -261,12 +288,12 @@ func coqTx(j *TxJ) string {
 	for _, in := range j.Ins {
 		d, m := "", ""
 		if x := in.Dep; x != nil {
-			d = vh.App("Build_deposit", cN(x.Chain), cBytes(x.AssetKey), cBytes(x.Tx), vh.NU(x.Index), cDec(x.Amount))
+			d = vh.App("Build_deposit", cN(x.Chain), cBytes(x.AssetKey), cBytes(x.Tx), pn(x.Index), cDec(x.Amount))
 		}
 		if x := in.Mint; x != nil {
-			m = vh.App("Build_mint", cBytes(x.Group), vh.NU(x.Batch), cDec(x.Amount))
+			m = vh.App("Build_mint", cBytes(x.Group), pn(x.Batch), cDec(x.Amount))
 		}
-		ins = append(ins, vh.App("Build_input", cN(in.Hash), vh.NU(in.Index), cBytes(in.Genesis), cOpt("deposit", d), cOpt("mint", m)))
+		ins = append(ins, vh.App("Build_input", cN(in.Hash), pn(in.Index), cBytes(in.Genesis), cOpt("deposit", d), cOpt("mint", m)))
 	}
 	outs := []string{}
 	for _, o := range j.Outs {
@@ -278,7 +305,7 @@ func coqTx(j *TxJ) string {
 		if x := o.Wd; x != nil {
 			w = vh.App("Build_withdrawal", cBytes(x.Address), cBytes(x.Tag))
 		}
-		outs = append(outs, vh.App("Build_output", vh.NU(uint64(o.Type)), cDec(o.Amount), vh.List(ks, "N"), cN(o.Mask), cBytes(o.Script), cOpt("withdrawal", w)))
+		outs = append(outs, vh.App("Build_output", pn(uint64(o.Type)), cDec(o.Amount), vh.List(ks, "N"), cN(o.Mask), cBytes(o.Script), cOpt("withdrawal", w)))
 	}
 	refs := []string{}
 	for _, r := range j.Refs {
@@ -288,7 +315,7 @@ func coqTx(j *TxJ) string {
 	if a := j.Agg; a != nil {
 		ss := []string{}
 		for _, s := range a.Signers {
-			ss = append(ss, vh.NU(uint64(s)))
+			ss = append(ss, pn(uint64(s)))
 		}
 		au = vh.App("Aggregate", cN(a.Sig), vh.List(ss, "N"))
 	} else {
@@ -296,13 +323,13 @@ func coqTx(j *TxJ) string {
 		for _, m := range j.Maps {
 			es := []string{}
 			for _, e := range m {
-				es = append(es, "("+vh.NU(uint64(e.I))+", "+cN(e.S)+")")
+				es = append(es, "("+pn(uint64(e.I))+", "+cN(e.S)+")")
 			}
 			ms = append(ms, vh.List(es, "(N*N)"))
 		}
 		au = vh.App("SigMaps", vh.List(ms, "sigmap"))
 	}
-	return vh.App("Build_tx", vh.NU(uint64(j.Version)), cN(j.Asset), vh.List(ins, "input"), vh.List(outs, "output"),
+	return vh.App("Build_tx", pn(uint64(j.Version)), cN(j.Asset), vh.List(ins, "input"), vh.List(outs, "output"),
 		vh.List(refs, "N"), cBytes(j.Extra), au)
 }
 
@@ -310,7 +337,18 @@ func resBytes(pan bool, b []byte) string {
 	if pan {
 		return vh.Pan("bytes")
 	}
-	return vh.Ok(vh.Bytes(b))
+	return vh.Ok(pB(b))
+}
+
+// resSame: like resBytes, but None when the bytes are those of ref
+func resSame(pan bool, b []byte, refPan bool, ref []byte) string {
+	if pan {
+		return vh.Pan("(option bytes)")
+	}
+	if !refPan && bytes.Equal(b, ref) {
+		return vh.Ok(vh.None("bytes"))
+	}
+	return vh.Ok(vh.Some(pB(b)))
 }
 
 // ---- running the implementation -------------------------------------------------------
@@ -362,7 +400,7 @@ func runUnmarshal(c *vh.Ctx, cs Case) {
 	}
 	term := ""
 	if len(b) <= modelMaxBytes {
-		term = vh.App("CUnmarshal", vh.Bytes(b), obs)
+		term = vh.App("CUnmarshal", pB(b), obs) + "%uint63"
 	}
 	nontrivial := cls == 0 || (len(b) > 36 && bytes.Equal(b[:4], []byte{0x77, 0x77, 0, common.TxVersionHashSignature}))
 	c.Case(cs.Kind, shortKey("u", cs.Hex), nontrivial, cs, term)
@@ -513,7 +551,7 @@ func runTx(c *vh.Ctx, cs Case) []byte {
 	pHash, _ := vh.Catch(func() { ph = v.PayloadHash() })
 	term := ""
 	if len(raw) <= modelMaxBytes {
-		term = vh.App("CEncode", coqTx(j), resBytes(pRaw, raw), resBytes(pMar, mar), resBytes(pPay, pay))
+		term = vh.App("CEncode", coqTx(j), resBytes(pRaw, raw), resSame(pMar, mar, pRaw, raw), resSame(pPay, pay, pRaw, raw)) + "%uint63"
 	}
 	js, _ := json.Marshal(j)
 	c.Case(cs.Kind, shortKey("t", string(js)), !pMar, cs, term)
